@@ -765,7 +765,8 @@ class Phase(Angle):
                 # downgrading ourself to a quantity and see if things work.
                 pass
 
-        elif function in {np.floor_divide, np.remainder, np.divmod} and basic_real:
+        elif function in {np.floor_divide, np.remainder, np.divmod} and basic_real and i_self == 0:
+            divisor = inputs[1].cycle if isinstance(inputs[1], Phase) else inputs[1]
             fd_out = None
             if out is not None:
                 if function is np.divmod:
@@ -776,16 +777,16 @@ class Phase(Angle):
             elif phase_out is not None and function is np.floor_divide:
                 return NotImplemented
 
-            fd = np.floor_divide(self.cycle, inputs[1], out=fd_out)
-            corr = Phase.from_angles(inputs[1], factor=fd, out=phase_out)
+            fd = np.floor_divide(self.cycle, divisor, out=fd_out)
+            corr = Phase.from_angles(divisor, factor=fd, out=phase_out)
             remainder = np.subtract(self, corr, out=corr)
-            fdx = np.floor_divide(remainder.cycle, inputs[1])
+            fdx = np.floor_divide(remainder.cycle, divisor)
             # This can likely be optimized...
             # Note: one cannot just loop, because rounding of exact 0.5.
             # TODO: check this method is really correct.
             if np.count_nonzero(fdx):
                 fd += fdx
-                corr = Phase.from_angles(inputs[1], factor=fd, out=corr)
+                corr = Phase.from_angles(divisor, factor=fd, out=corr)
                 remainder = np.subtract(self, corr, out=corr)
 
             if function is np.floor_divide:
